@@ -4,6 +4,15 @@
 // package clause and structured comments; it is excluded from normal builds.
 package saml
 
+//@ -- package variables: sentinels are never reassigned (checked by scanning every store in /repo); the clock, the
+//@ -- logger, the random source and the cipher table are configuration that callers may replace, only with usable values
+//@ globalinv sentinel: errSignatureElementNotPresent != nil
+//@ globalinv form_template: defaultResponseFormTemplate != nil
+//@ configinv clock: TimeNow != nil
+//@ configinv log: logger.DefaultLogger != nil
+//@ configinv rand: RandReader != nil && xmlenc.RandReader != nil
+//@ configinv cipher: xmlenc.AES128CBC != nil && xmlenc.AES128CBC.KeySize() >= 0
+
 //@ -- ------------------------------------------------------------------------------------------
 //@ -- specification vocabulary (pure Go, evaluated symbolically by the same translator as the code)
 
@@ -73,7 +82,6 @@ package saml
 //@ ensures[C09] nil_iff_err: (result == nil) == (err != nil)
 //@ ensures[C02,C03,C04] valid: result != nil ==> assertionValid(sp, result, possibleRequestIDs, now)
 //@ ensures[C03] audience: result != nil && sp.ValidateAudienceRestriction == nil ==> audienceOK(sp, result)
-//@ requires[cfg] sentinel: errSignatureElementNotPresent != nil
 //@ requires[cfg] req: signatureRequirement == signatureRequired || signatureRequirement == signatureNotRequired
 //@ -- the element handed to the unmarshaller is the element whose signature was verified
 //@ ensures[C01] accepted: result != nil && sp.SignatureVerifier == nil ==> Accepted(sp, *result, signatureRequirement)
@@ -154,7 +162,6 @@ package saml
 
 //@ contract (*ServiceProvider).validateSignature
 //@ requires[cfg] el: el != nil
-//@ requires[cfg] sentinel: errSignatureElementNotPresent != nil
 //@ -- the roots handed to the validation context come from exactly one configured source
 //@ derive@call[C01] NewDefaultValidationContext #1 (store dsig.X509CertificateStore) uses certs []*x509.Certificate config_roots:
 //@    sameCerts(storeRoots(store), certs) && len(certs) > 0 && sp.IDPMetadata != nil &&
@@ -193,7 +200,6 @@ package saml
 //@ contract (*ServiceProvider).parseEncryptedAssertion
 //@ requires[cfg] el: encryptedAssertionEl != nil
 //@ requires[cfg] md: sp.IDPMetadata != nil
-//@ requires[cfg] sentinel: errSignatureElementNotPresent != nil
 //@ requires[cfg] req: signatureRequirement == signatureRequired || signatureRequirement == signatureNotRequired
 //@ ensures[C09] nil_iff_err: (result == nil) == (err != nil)
 //@ ensures[C02,C03,C04,C08] valid: result != nil ==> assertionValid(sp, result, possibleRequestIDs, now)
@@ -204,7 +210,6 @@ package saml
 //@ contract (*ServiceProvider).parseResponse
 //@ requires[cfg] el: responseEl != nil
 //@ requires[cfg] md: sp.IDPMetadata != nil
-//@ requires[cfg] sentinel: errSignatureElementNotPresent != nil
 //@ requires[cfg] req: signatureRequirement == signatureRequired || signatureRequirement == signatureNotRequired
 //@ ensures[C09] nil_iff_err: (result == nil) == (err != nil)
 //@ ensures[C02,C03,C04] valid: result != nil ==> assertionValid(sp, result, possibleRequestIDs, now)
@@ -250,7 +255,6 @@ package saml
 //@ contract (*ServiceProvider).parseArtifactResponse
 //@ requires[cfg] el: artifactResponseEl != nil
 //@ requires[cfg] md: sp.IDPMetadata != nil
-//@ requires[cfg] sentinel: errSignatureElementNotPresent != nil
 //@ ensures[C09] nil_iff_err: (result == nil) == (err != nil)
 //@ ensures[C09] errtype: err != nil ==> isInvalidResponseError(err)
 //@ ensures[C02,C03,C04] valid: result != nil ==> assertionValid(sp, result, possibleRequestIDs, now)
@@ -266,8 +270,6 @@ package saml
 
 //@ contract (*ServiceProvider).ParseXMLResponse
 //@ requires[cfg] md: sp.IDPMetadata != nil
-//@ requires[cfg] sentinel: errSignatureElementNotPresent != nil
-//@ requires[cfg] clock: TimeNow != nil
 //@ ensures[C09] nil_iff_err: (result == nil) == (err != nil)
 //@ ensures[C09] errtype: err != nil ==> isInvalidResponseError(err)
 //@ -- validity is judged at the library clock
@@ -281,8 +283,6 @@ package saml
 
 //@ contract (*ServiceProvider).ParseXMLArtifactResponse
 //@ requires[cfg] md: sp.IDPMetadata != nil
-//@ requires[cfg] sentinel: errSignatureElementNotPresent != nil
-//@ requires[cfg] clock: TimeNow != nil
 //@ ensures[C09] nil_iff_err: (result == nil) == (err != nil)
 //@ ensures[C09] errtype: err != nil ==> isInvalidResponseError(err)
 //@ ensures[C02,C03,C04] valid: result != nil ==> assertionValid(sp, result, possibleRequestIDs, TimeNow())
@@ -295,8 +295,6 @@ package saml
 //@ contract (*ServiceProvider).parseResponseHTTP
 //@ requires[cfg] req: req != nil && req.URL != nil
 //@ requires[cfg] md: sp.IDPMetadata != nil
-//@ requires[cfg] sentinel: errSignatureElementNotPresent != nil
-//@ requires[cfg] clock: TimeNow != nil
 //@ ensures[C09] nil_iff_err: (result == nil) == (err != nil)
 //@ ensures[C09] errtype: err != nil ==> isInvalidResponseError(err)
 //@ ensures[C02,C03,C04] valid: result != nil ==> assertionValid(sp, result, possibleRequestIDs, TimeNow())
@@ -304,9 +302,6 @@ package saml
 
 //@ contract (*ServiceProvider).handleArtifactRequest
 //@ requires[cfg] md: sp.IDPMetadata != nil
-//@ requires[cfg] sentinel: errSignatureElementNotPresent != nil
-//@ requires[cfg] clock: TimeNow != nil
-//@ requires[cfg] log: logger.DefaultLogger != nil
 //@ ensures[C09] nil_iff_err: (result == nil) == (err != nil)
 //@ ensures[C09] errtype: err != nil ==> isInvalidResponseError(err)
 //@ ensures[C02,C03,C04] valid: result != nil ==> assertionValid(sp, result, possibleRequestIDs, TimeNow())
@@ -318,9 +313,6 @@ package saml
 //@ contract (*ServiceProvider).ParseResponse
 //@ requires[cfg] req: req != nil && req.URL != nil
 //@ requires[cfg] md: sp.IDPMetadata != nil
-//@ requires[cfg] sentinel: errSignatureElementNotPresent != nil
-//@ requires[cfg] clock: TimeNow != nil
-//@ requires[cfg] log: logger.DefaultLogger != nil
 //@ ensures[C09] nil_iff_err: (result == nil) == (err != nil)
 //@ ensures[C09] errtype: err != nil ==> isInvalidResponseError(err)
 //@ ensures[C02,C03,C04] valid: result != nil ==> assertionValid(sp, result, possibleRequestIDs, TimeNow())
@@ -335,7 +327,6 @@ package saml
 //@ requires[cfg] el: el != nil
 
 //@ contract (*ServiceProvider).MakeArtifactResolveRequest
-//@ requires[cfg] clock: TimeNow != nil
 //@ ensures[C09,C12] nonnil: err == nil ==> result != nil
 
 //@ -- ------------------------------------------------------------------------------------------
@@ -351,8 +342,6 @@ package saml
 
 //@ contract (*ServiceProvider).ValidateLogoutResponseForm
 //@ requires[cfg] md: sp.IDPMetadata != nil
-//@ requires[cfg] sentinel: errSignatureElementNotPresent != nil
-//@ requires[cfg] clock: TimeNow != nil
 //@ -- the bytes parsed are the validated ones; the signature is checked on the root; the root is what is unmarshalled
 //@ assert@call[C18] ReadFromBytes #1 (doc *etree.Document, b []byte) validated_bytes_parsed: RoundTripSafe(b)
 //@ assert@call[C18] validateSignature #1 (spa *ServiceProvider, el *etree.Element) uses doc *etree.Document signature_on_root:
@@ -364,8 +353,6 @@ package saml
 
 //@ contract (*ServiceProvider).ValidateLogoutResponseRedirect
 //@ requires[cfg] md: sp.IDPMetadata != nil
-//@ requires[cfg] sentinel: errSignatureElementNotPresent != nil
-//@ requires[cfg] clock: TimeNow != nil
 //@ assert@call[C18] ReadFromBytes #1 (doc *etree.Document, b []byte) validated_bytes_parsed: RoundTripSafe(b)
 //@ assert@call[C18] validateSignature #1 (spa *ServiceProvider, el *etree.Element) uses doc *etree.Document signature_on_root:
 //@    el != nil && el == doc.Root()
@@ -380,8 +367,6 @@ package saml
 //@ contract (*ServiceProvider).ValidateLogoutResponseRequest
 //@ requires[cfg] req: req != nil && req.URL != nil
 //@ requires[cfg] md: sp.IDPMetadata != nil
-//@ requires[cfg] sentinel: errSignatureElementNotPresent != nil
-//@ requires[cfg] clock: TimeNow != nil
 
 //@ -- bounded inflate: the reader never hands out more than flateUncompressLimit bytes in total
 //@ contract (*saferFlateReader).Read
@@ -406,7 +391,6 @@ package saml
 
 //@ contract (*IdentityProvider).Metadata
 //@ requires[cfg] cert: idp.Certificate != nil
-//@ requires[cfg] clock: TimeNow != nil
 //@ ensures[C05,C06] shape: result != nil && len(result.IDPSSODescriptors) == 1 && result.IDPSSODescriptors[0].WantAuthnRequestsSigned == nil
 //@ ensures[C06] entity: result.EntityID == idp.MetadataURL.String()
 
@@ -423,7 +407,6 @@ package saml
 
 //@ contract (*IdpAuthnRequest).Validate
 //@ requires[cfg] idp: req.IDP != nil && req.IDP.Certificate != nil && req.IDP.ServiceProviderProvider != nil
-//@ requires[cfg] clock: TimeNow != nil
 //@ ensures[C05] fresh: err == nil ==> ns(req.Now) <= ns(req.Request.IssueInstant)+int64(MaxIssueDelay)
 //@ ensures[C05] version: err == nil ==> req.Request.Version == "2.0"
 //@ ensures[C05] destination: err == nil ==> req.Request.Destination == "" || req.Request.Destination == req.IDP.SSOURL.String()
@@ -478,8 +461,6 @@ package saml
 //@ requires[cfg] idp: req.IDP != nil && req.IDP.Certificate != nil
 //@ requires[cfg] a: req.Assertion != nil && req.SPSSODescriptor != nil
 //@ requires[cfg] chain: forall(0, len(req.IDP.Intermediates), func(k int) bool { return req.IDP.Intermediates[k] != nil })
-//@ requires[cfg] rand: xmlenc.RandReader != nil
-//@ requires[cfg] cipher: xmlenc.AES128CBC != nil && xmlenc.AES128CBC.KeySize() >= 0
 //@ ensures[C06,C08,C09] set: err == nil ==> req.AssertionEl != nil
 //@ -- sign first: the element that leaves (in clear or encrypted) is built after the signature was attached
 //@ assert@call[C06] SignEnveloped #1 (ctx *dsig.SigningContext, el *etree.Element) signs_assertion: ElementOfAssertion(req.Assertion, el)
@@ -504,7 +485,6 @@ package saml
 //@ requires[cfg] req: req != nil && req.IDP != nil && req.IDP.Certificate != nil && req.SPSSODescriptor != nil &&
 //@    req.ACSEndpoint != nil && req.ServiceProviderMetadata != nil && req.HTTPRequest != nil
 //@ requires[cfg] session: session != nil
-//@ requires[cfg] clock: TimeNow != nil
 //@ ensures[C06] set: err == nil ==> req.Assertion != nil && req.Assertion.Subject != nil && req.Assertion.Conditions != nil && req.Assertion.Subject.NameID != nil
 //@ ensures[C06] issuer: err == nil ==> req.Assertion.Issuer.Value == req.IDP.MetadataURL.String()
 //@ ensures[C06] nameid: err == nil ==> req.Assertion.Subject.NameID.Value == session.NameID &&
@@ -533,8 +513,6 @@ package saml
 //@ requires[cfg] idp: req.IDP != nil && req.IDP.Certificate != nil
 //@ requires[cfg] a: req.Assertion != nil && req.SPSSODescriptor != nil && req.ACSEndpoint != nil
 //@ requires[cfg] chain: forall(0, len(req.IDP.Intermediates), func(k int) bool { return req.IDP.Intermediates[k] != nil })
-//@ requires[cfg] rand: xmlenc.RandReader != nil
-//@ requires[cfg] cipher: xmlenc.AES128CBC != nil && xmlenc.AES128CBC.KeySize() >= 0
 //@ ensures[C06,C09] set: err == nil ==> req.ResponseEl != nil && req.AssertionEl != nil
 //@ -- the Response is addressed to the selected endpoint, answers this request, is issued by this IdP now, with status Success
 //@ assert@call[C06] Element #1 (r *Response) response_fields:
@@ -552,8 +530,6 @@ package saml
 //@ requires[cfg] idp: req.IDP != nil && req.IDP.Certificate != nil
 //@ requires[cfg] a: req.Assertion != nil && req.SPSSODescriptor != nil && req.ACSEndpoint != nil && req.ServiceProviderMetadata != nil
 //@ requires[cfg] chain: forall(0, len(req.IDP.Intermediates), func(k int) bool { return req.IDP.Intermediates[k] != nil })
-//@ requires[cfg] rand: xmlenc.RandReader != nil
-//@ requires[cfg] cipher: xmlenc.AES128CBC != nil && xmlenc.AES128CBC.KeySize() >= 0
 //@ -- the form posts to the selected registered endpoint, only if that endpoint uses the POST binding, with the relay state unchanged
 //@ ensures[C06] form: err == nil ==> result.URL == req.ACSEndpoint.Location && req.ACSEndpoint.Binding == HTTPPostBinding && result.RelayState == req.RelayState
 
@@ -561,9 +537,6 @@ package saml
 //@ requires[cfg] idp: req.IDP != nil && req.IDP.Certificate != nil
 //@ requires[cfg] a: req.Assertion != nil && req.SPSSODescriptor != nil && req.ACSEndpoint != nil && req.ServiceProviderMetadata != nil
 //@ requires[cfg] chain: forall(0, len(req.IDP.Intermediates), func(k int) bool { return req.IDP.Intermediates[k] != nil })
-//@ requires[cfg] rand: xmlenc.RandReader != nil
-//@ requires[cfg] cipher: xmlenc.AES128CBC != nil && xmlenc.AES128CBC.KeySize() >= 0
-//@ requires[cfg] tmpl: defaultResponseFormTemplate != nil
 //@ -- C14: the form is rendered by html/template with the peer-controlled strings as data
 //@ assert@call[C14,C06] Execute #1 (t *template.Template, out io.Writer, data interface{}) html_template_with_form_data:
 //@    t != nil && (t == req.IDP.ResponseFormTemplate || (req.IDP.ResponseFormTemplate == nil && t == defaultResponseFormTemplate)) && isForm(data)
@@ -575,7 +548,6 @@ package saml
 
 //@ contract NewIdpAuthnRequest
 //@ requires[cfg] r: r != nil && r.URL != nil
-//@ requires[cfg] clock: TimeNow != nil
 //@ ensures[C05,C09] nil_iff_err: (result == nil) == (err != nil)
 //@ ensures[C05] fields: err == nil ==> result.IDP == idp && result.HTTPRequest == r
 //@ -- the redirect binding inflates through the bounded reader
@@ -584,10 +556,6 @@ package saml
 //@ contract (*IdentityProvider).ServeSSO
 //@ requires[cfg] idp: idpConfigured(idp)
 //@ requires[cfg] r: r != nil && r.URL != nil && w != nil
-//@ requires[cfg] clock: TimeNow != nil
-//@ requires[cfg] rand: xmlenc.RandReader != nil
-//@ requires[cfg] cipher: xmlenc.AES128CBC != nil && xmlenc.AES128CBC.KeySize() >= 0
-//@ requires[cfg] tmpl: defaultResponseFormTemplate != nil
 //@ -- a response is written only for a validated request, an existing session and a registered endpoint
 //@ assert@call[C05,C19] WriteResponse #1 (rq *IdpAuthnRequest) uses session *Session only_authenticated: session != nil
 //@ assert@call[C05,C19] WriteResponse #1 (rq *IdpAuthnRequest) same_idp: rq.IDP == idp
@@ -599,10 +567,6 @@ package saml
 //@ contract (*IdentityProvider).ServeIDPInitiated
 //@ requires[cfg] idp: idpConfigured(idp)
 //@ requires[cfg] r: r != nil && r.URL != nil && w != nil
-//@ requires[cfg] clock: TimeNow != nil
-//@ requires[cfg] rand: xmlenc.RandReader != nil
-//@ requires[cfg] cipher: xmlenc.AES128CBC != nil && xmlenc.AES128CBC.KeySize() >= 0
-//@ requires[cfg] tmpl: defaultResponseFormTemplate != nil
 //@ -- IdP-initiated: a response only with a session, to a provider the registry knows now, at one of its POST endpoints
 //@ assert@call[C05,C19] WriteResponse #1 (rq *IdpAuthnRequest) uses session *Session only_registered_and_authenticated:
 //@    session != nil && rq.IDP == idp && registeredACS(rq) && rq.ACSEndpoint.Binding == HTTPPostBinding &&
